@@ -419,6 +419,11 @@ def check_tuple(cwd, root, here, wd, p, facts):
                         f"translate({p!r}, {wd!r}) = {tr!r} is recorded without normalisation (normalised: {posixpath.normpath(tr)!r})"))
         if posixpath.isabs(p) and tr != posixpath.normpath(p):
             out.append(("oracle:translate:abs-stable", f"translate({p!r}) = {tr!r}"))
+        # api.step records translate(workdir) too and the executor launches the command there
+        trwd = str(translate(wd))
+        if lex(lex(root, trwd), p) != got:
+            out.append(("oracle:declared-vs-execution",
+                        f"step(workdir={wd!r}) is recorded with workdir {trwd!r}; {p!r} run there means {lex(lex(root, trwd), p)!r}, recorded {tr!r} means {got!r}"))
         # translate_back of an arbitrary stored path q := p
         tb = str(translate_back(p, wd))
         if lex(caller, tb) != lex(root, p):
@@ -449,6 +454,14 @@ def check_tuple(cwd, root, here, wd, p, facts):
                                 f"_keep_affixes({p!r}, {name}) = {res[1]!r} has affixes {get_affixes(res[1])}, argument had {(l, t)}"))
                 elif lex(root, res[1]) != lex(root, bare):
                     out.append((f"oracle:affixes:{name}:other-file", f"{res[1]!r} versus {bare!r}"))
+    # nothing set in the environment: root = cwd, HERE = "."
+    with patched(root, None, None):
+        tr0 = str(translate(p, wd))
+        tb0 = str(translate_back(p, wd))
+    if lex(root, tr0) != lex(lex(root, wd), p):
+        out.append(("oracle:noenv:translate", f"cwd={root!r}, no STEPUP_ROOT/HERE: translate({p!r}, {wd!r}) = {tr0!r}"))
+    if lex(lex(root, wd), tb0) != lex(root, p):
+        out.append(("oracle:noenv:translate_back", f"cwd={root!r}, no STEPUP_ROOT/HERE: translate_back({p!r}, {wd!r}) = {tb0!r}"))
     # fixpoint
     if is_inside_normalized(p):
         with patched(cwd, root, "."):
